@@ -366,8 +366,30 @@ def run(repo, chk):
         from . import c16
         from ..report import Remap as _Remap
         c16.run(repo, _Remap(chk, {'C16.E2': lambda c: 'C06.L2' if '@' in c or '!' in c else None}))
+    # ---- V2: the placement table --------------------------------------------------------------------------------
+    # lexer + grammar of the tree evaluated by the checker's interpreter (hidverif.frontend) on one small program per
+    # (construct, position): every context-sensitive construct at every position that legal nesting reaches within the
+    # depth bound, against the documented rule.  This reads nothing of the grammar's shape (routine names, tables,
+    # helper methods), and it goes through rules.py and the lexer as well.
+    chk.rule('C06.V2', 'placement table: each construct at each position reachable by legal nesting (bounded depth), parsed by '
+                       'the interpreted front end, is accepted iff the documented rule allows it')
+    if chk.__class__.__name__ == 'Check':
+        from .. import placement
+        if chk.tier == 'thorough':
+            bad, n, dist = placement.run_table_parallel(repo.root, 2, True)
+        else:
+            from ..frontend import Frontend
+            bad, n, dist = placement.run_table(Frontend(repo), 1, False)
+        for label, prog, got, want in bad[:6]:
+            chk.fail('C06.V2', label, f'`{prog}` is {got}; the documented rule says {want}', GRAMMAR)
+        if not bad:
+            chk.ok('C06.V2', 'placement table', f'{n} programs, {len(dist)} distinct (construct, position) pairs: verdicts as documented')
+        chk.count('placements', n)
+        chk.count('placement_pairs', len(dist))
+        chk.floor('placement programs', n, 90)
     chk.exhaustive = True
-    chk.not_decided = ['nothing: the context lattice is finite and fully explored; typing rules are C07']
+    chk.not_decided = ['nothing for the grammar as a finite-state system: the context lattice is finite and fully explored (V1); '
+                       'the placement table (V2) is bounded by nesting depth 1 (quick) / 2 (thorough); typing rules are C07']
 
 
 def run_thorough(repo, chk):
